@@ -57,6 +57,9 @@ func runC13(t *testing.T, tape *sim.Tape, tier string) *Outcome {
 		cl.Srv.SetRequirePass(pw)
 	}
 	cl.Sticky = tape.Draw(4, "sticky")
+	// a quarter of the runs switch on the scheduling points that the build inserts in front of every lock
+	// acquisition and sync.Map access (interleavings finer than the hand-placed yield points)
+	cl.AutoYields = tape.Draw(4, "autoyields") == 3
 	// a quarter of the runs: some acquisitions of the command lock find it busy (phantom holder), so that what
 	// the code does while it waits for the lock is part of the explored behaviour
 	if tape.Draw(4, "contention") == 3 {
